@@ -675,7 +675,7 @@ def index_class(prog, f, idx, at, res):
         stores = [x for x in f.ins if x.op == 'store' and flow._freeze(res.loc(x.ops[1])) == v]
         consts = []; steps = []; data = False
         for st in stores:
-            if at not in cfg.reach(st, avoid=[y for y in stores if y is not st]): continue
+            if st is at or at not in cfg.reach(st, avoid=[y for y in stores if y is not st and y is not at]): continue
             l2 = lin(f, st.ops[0], res)
             lv = _index_leaves(f, st.ops[0], res)
             if any(k[0] in ('data', 'param') for k in lv) or l2 is None: data = True
